@@ -224,6 +224,7 @@ pub struct World {
     pub os: OsCfg,
     pub stats: Stats,
     pub op_budget: u64,
+    pub eof_read_budget: u64,
     pub http: Option<Box<dyn HttpHandler>>,
     send_counter: u64,
     last_udp_to_client: u64,
@@ -311,6 +312,7 @@ impl World {
             os: OsCfg::default(),
             stats: Stats::default(),
             op_budget: 200_000,
+            eof_read_budget: 40_000_000,
             http: None,
             send_counter: 0,
             last_udp_to_client: 0,
@@ -988,7 +990,26 @@ impl Backend for SimBackend {
             w.stats.probe("tcp_reset_seen");
             return Err(io::Error::new(io::ErrorKind::ConnectionReset, "Connection reset by peer"));
         }
-        w.hist.push(Hist::TcpRead { t: now, sock: s, len: out, waited: now - start, eof });
+        // (a long run of end-of-stream polls is recorded once in a thousand)
+        let eof_polls = 40_000_000 - w.eof_read_budget;
+        if !(eof && out == 0) || eof_polls < 64 || eof_polls % 1000 == 0 {
+            w.hist.push(Hist::TcpRead { t: now, sock: s, len: out, waited: now - start, eof });
+        }
+        if out > 0 {
+            // a read that delivered bytes is progress, not spinning: it does not count against the
+            // operation budget (what the peer can send is finite)
+            w.op_budget = w.op_budget.saturating_add(1);
+        } else if eof {
+            // reads at end of stream are charged to a budget of their own: a streaming decoder may
+            // legitimately poll the closed stream once per byte of output it still has pending (seen:
+            // gzip body read byte by byte), which is bounded by the response size limit; a client that
+            // spins on end-of-stream forever still runs out (or into the CPU watchdog)
+            w.op_budget = w.op_budget.saturating_add(1);
+            w.eof_read_budget = w.eof_read_budget.saturating_sub(1);
+            if w.eof_read_budget == 0 {
+                w.op_budget = 0;
+            }
+        }
         Ok(out)
     }
 
